@@ -2142,7 +2142,7 @@ func NegateInt(val Value) Value {
 	}
 
 	l := val.AsSmallInt()
-	return (-l).ToValue()
+	return l.NegateVal()
 }
 
 // IncrementVal a value
